@@ -229,8 +229,16 @@ static void long_replace(const Str &src, const Str &sub, const Str &rep)
                               escb(src).c_str(), escb(sub).c_str(), escb(rep).c_str(), maxsize,
                               escb(Str(out.p, want.size() + 1)).c_str(), escb(want).c_str());
         }
-        else
-            mc::count("replace_substrings_truncating_calls_memory_only");
+        else if (maxsize >= 1)
+        { // replace_substrings.c: "The result is cut to maxsize - 1 bytes and always terminated"
+            mc::count("replace_substrings_truncating_calls");
+            if (memcmp(out.p, want.data(), maxsize - 1) != 0 || out.p[maxsize - 1] != 0)
+                mc::violation(Str(sub.size() == rep.size() ? "C19.replace_substrings.truncated_value.equal_lengths"
+                                                            : "C19.replace_substrings.truncated_value") + g_sfx,
+                              "replace_substrings(%s, %s, %s, maxsize=%zu) = %s, want the first %zu bytes of %s and a NUL", escb(src).c_str(),
+                              escb(sub).c_str(), escb(rep).c_str(), maxsize, escb(Str(out.p, maxsize)).c_str(), maxsize - 1,
+                              escb(want).c_str());
+        }
     }
 }
 
@@ -513,5 +521,67 @@ MC_INIT
                 mc::violation("C19.trim.value" + sig, "trim(%s %s) = %s", how, esc(s).c_str(), esc(t4).c_str());
         }
         mc::more_cases(9, nul ? 9 : 0);
+    });
+
+    // ---------------------------------------------------------------- arguments that alias each other
+    // A needle / pattern / replacement may be a piece of the haystack / input itself (all are const): every slice
+    // [off, off+len) of every haystack of length 0..6 (thorough 7) over {a,b,NUL} as the needle of igris_memmem, and as
+    // pattern x replacement (slices of length <= 3 / <= 2) of replace_substrings with a fitting, an exact and a cutting maxsize.
+    mc::add_check("aliasing_arguments", [] {
+        g_sfx = ".aliasing";
+        static const char AB0[3] = {'a', 'b', '\0'};
+        Str h = enum_str(AB0, 3, mc::thorough() ? 7 : 6, 4);
+        mc::describe("memmem / replace_substrings with needle, pattern and replacement taken from INSIDE the input %s (every offset and length)",
+                     esc(h).c_str());
+        long n = 0, nt = 0;
+        for (size_t off = 0; off < h.size(); off++)
+            for (size_t len = 1; off + len <= h.size(); len++)
+            {
+                Str nd = h.substr(off, len);
+                long want = ref_memmem(h, nd);
+                {
+                    PL hb(h, 0);
+                    hb.freeze();
+                    mc::crash_context("C19.memmem.memory.aliasing");
+                    char *g = (char *)igris_memmem(hb.p, hb.n, hb.p + off, len);
+                    mc::crash_context("C19.harness");
+                    long got = g ? (long)(g - hb.p) : -1;
+                    n++;
+                    if (want != (long)off)
+                        nt++; // an earlier occurrence than the needle's own position
+                    if (got != want)
+                        mc::violation("C19.memmem.value.aliasing", "igris_memmem(%s, needle = haystack+%zu len %zu) = %ld, first occurrence is %ld",
+                                      esc(h).c_str(), off, len, got, want);
+                }
+                if (len > 3)
+                    continue;
+                for (size_t roff = 0; roff < h.size(); roff++)
+                    for (size_t rlen = 0; rlen <= 2 && roff + rlen <= h.size(); rlen++)
+                    {
+                        Str rep = h.substr(roff, rlen), full = ref_replace(h, nd, rep);
+                        size_t need = full.size() + 1;
+                        size_t sizes[3] = {need + 2, need, need > 2 ? need - 2 : 1};
+                        for (size_t maxsize : sizes)
+                        {
+                            PL in(h, 0);
+                            in.freeze();
+                            Exact out(maxsize, 3);
+                            mc::crash_context("C19.replace_substrings.memory.aliasing");
+                            replace_substrings(out.p, maxsize, in.p, in.n, in.p + off, len, in.p + roff, rlen);
+                            mc::crash_context("C19.harness");
+                            size_t k = std::min(maxsize - 1, full.size());
+                            n++;
+                            if (memcmp(out.p, full.data(), k) != 0 || out.p[k] != 0)
+                                mc::violation("C19.replace_substrings.value.aliasing",
+                                              "replace_substrings(%s, sub = input+%zu len %zu, rep = input+%zu len %zu, maxsize=%zu) = %s, want %s",
+                                              esc(h).c_str(), off, len, roff, rlen, maxsize, esc(Str(out.p, k + 1)).c_str(), esc(full.substr(0, k)).c_str());
+                        }
+                    }
+            }
+        mc::outcome(mc::fmt("aliasing slices=%ld", n > 20 ? 20 : n));
+        if (nt)
+            mc::nontrivial();
+        if (n > 1)
+            mc::more_cases((uint64_t)n - 1, (uint64_t)(nt ? nt - 1 : 0));
     });
 }
